@@ -2,7 +2,7 @@
 from ..facts import Program, Inconclusive, op_place
 from ..flow import Ev, walk, resolve_upvars, show, strip
 from ..gate import switch_on, edge_dominates
-from ..util import calls, one_call, last_field, try_continue_block
+from ..util import sites_via_helpers, private_wrappers, calls, one_call, last_field, try_continue_block
 
 SEGR = "sierradb::bucket::segment::reader::"
 WS = "sierradb::writer_thread_pool::WriterSet"
@@ -151,8 +151,8 @@ def run(chk, facts_dir, tier):
     hw = prog.body(WS + "::handle_write")
     chk.analysed(hw.path)
     ev = Ev(prog, hw)
-    ae = calls(hw, BSW + "append_event")
-    ac = calls(hw, BSW + "append_commit")
+    ae = sites_via_helpers(prog, hw, BSW + "append_event")
+    ac = sites_via_helpers(prog, hw, BSW + "append_commit")
     if len(ae) != 1 or len(ac) != 1:
         raise Inconclusive("handle_write: expected one append_event and one append_commit call site, found %d/%d" % (len(ae), len(ac)))
     (eb, et), (cb, ct) = ae[0], ac[0]
@@ -200,6 +200,8 @@ def run(chk, facts_dir, tier):
             r = b.root or b.path
             if r == WS + "::handle_write":
                 chk.ok("R4.2", "%s called from handle_write" % fn, b.where(b.term(bi)["line"]))
+            elif r in private_wrappers(prog, hw, BSW + fn):
+                chk.ok("R4.2", "%s called from %s, a private helper whose only caller is handle_write" % (fn, r.rsplit("::", 1)[-1]), b.where(b.term(bi)["line"]))
             else:
                 chk.fail("R4.2", r, "record-writer:" + fn, "%s is called outside WriterSet::handle_write: records can be written without the event/commit protocol" % fn, b, b.term(bi)["line"])
 
